@@ -204,6 +204,9 @@ func ArrayReverse(r *Realm, this Value, _ []Value) Value {
 		}
 		lower++
 	}
+	if r.Quirk.ReturnRawThis {
+		return this
+	}
 	return ObjV(O) // 7
 }
 
@@ -717,6 +720,9 @@ func ArraySortReference(r *Realm, this Value, args []Value) Value {
 		} else {
 			r.Delete(O, idx(float64(k)), true)
 		}
+	}
+	if r.Quirk.ReturnRawThis {
+		return this
 	}
 	return ObjV(O)
 }
